@@ -61,7 +61,7 @@ def gen_cases(tier, seed, ctx):
         # detached header with the dictionary chunk appended: only the dictionary is scanned
         y = copy.deepcopy(z); y.detached = True
         hb = y.header()
-        for ops in ('v', 'f', 'd'):
+        for ops in ('v', 'f', 'd', 'vd', 'fd', 'dvd', 'dfd', 'vfd', 'dv', 'vvd'):      # the verdict of one validation must not depend on the ones before
             add('detached', hb + z.chunks[0]['stored'], ops)
             add('detached-bad-dict', hb + bytes(len(z.chunks[0]['stored'])), ops)
     bb = big.build(); bhl = len(big.header())
@@ -77,5 +77,5 @@ def run(tier, seed, replay=None):
     rule = ("SCAN (sequences of zck_validate_checksums / zck_find_valid_chunks / zck_validate_data_checksum / read-to-end / close) on targets "
             "whose chunk regions are each present, zeroed or garbage (all 3^n subsets, n=4 quick / 6 thorough, identical neighbouring chunks), "
             "every truncation length of the body, over-long files, wrong data checksum with all chunks fine, detached headers with good/bad "
-            "dictionary, and >32 KiB chunks truncated at buffer multiples; files: none/zstd x dictionary x uncompressed-source flag")
+            "dictionary (single validations and sequences of them on one context), and >32 KiB chunks truncated at buffer multiples; files: none/zstd x dictionary x uncompressed-source flag")
     return E.standard_run(PROP, MODULES, gen_cases, tier, seed, replay, ASSUMPTIONS, rule, nontrivial=nontrivial, timeout_s=60)
